@@ -1,0 +1,16 @@
+//go:build verif
+
+package fstxn
+
+import "github.com/mit-pdos/go-journal/common"
+
+// VerifHook, when set, observes transaction and inode-lock events:
+// begin, want (before Acquire; may block or yield), got, rel, precommit,
+// committed (journal append done, inode locks still held), abort.
+var VerifHook func(ev string, op *FsTxn, inum common.Inum)
+
+func verifHook(ev string, op *FsTxn, inum common.Inum) {
+	if h := VerifHook; h != nil {
+		h(ev, op, inum)
+	}
+}
